@@ -20,7 +20,7 @@ import (
 	"github.com/imroc/req/v3/verifharness/wire"
 )
 
-func main() { hk.Main("C02", runC02, map[string]hk.Gosyncer{}) }
+func main() { hk.Main("C02", runC02, c02Syncers) }
 
 var modes = []string{"auto", "stream", "tobytes", "output", "outfile"}
 var patterns = [][]int{{1}, {7}, {512}, {4096}, {65536}, {512, 1, 3}, {2, 4095}, {32768, 1}, {4097}, {100000}}
